@@ -652,6 +652,12 @@ func (m *Monitor) respAllocate(r *mReq, msg *stun.Message, ok bool, code int, I 
 		}
 	}
 	m.Net.mu.Unlock()
+	if t, failed := m.relayErr[a.RelayKey]; failed && t >= Ic.Lo && t <= I.Hi {
+		// an injected relay read error struck while the success response was on its way out:
+		// the allocation is being torn down already (its deleted event may come later)
+		ended = true
+		m.markEnding(a, t, "relay-failure")
+	}
 	if bound == nil && !ended && !m.serverClosed && Ic.Lo+int64(life)*1e9 > I.Hi {
 		m.v([]string{"C19", "C20"}, "relay-unreachable", nil, "Allocate advertised %s but no open relay socket is bound there", a.RelayKey)
 	}
